@@ -26,6 +26,8 @@ pub enum Step {
 
 #[derive(Clone, Debug)]
 pub struct Build {
+    /// None | Some("current") | Some("workspace"): compile the crate in CARGO_MANIFEST_DIR as a buildpack
+    crate_buildpack: Option<&'static str>,
     expect_failure: bool,
     pack_fails: bool,
     preprocessor: bool,
@@ -68,7 +70,7 @@ fn build_strategy(depth: u32) -> BoxedStrategy<Build> {
             if let Some(i) = steps.iter().position(|s| matches!(s, Step::Rebuild(_))) {
                 steps.truncate(i + 1);
             }
-            Build { expect_failure, pack_fails, preprocessor, steps }
+            Build { crate_buildpack: None, expect_failure, pack_fails, preprocessor, steps }
         })
         .boxed()
 }
@@ -110,7 +112,7 @@ fn panic_positions(b: &Build) -> usize {
 }
 
 fn with_panic_at(b: &Build, pos: &mut isize) -> Build {
-    let mut out = Build { expect_failure: b.expect_failure, pack_fails: b.pack_fails, preprocessor: b.preprocessor, steps: vec![] };
+    let mut out = Build { crate_buildpack: b.crate_buildpack, expect_failure: b.expect_failure, pack_fails: b.pack_fails, preprocessor: b.preprocessor, steps: vec![] };
     for s in &b.steps {
         if *pos == 0 {
             out.steps.push(Step::Panic);
@@ -183,7 +185,7 @@ fn build_json(b: &Build, pack_ordinal: &mut u64, fails: &mut Vec<u64>) -> Value 
             Step::Rebuild(inner) => json!({"rebuild": build_json(inner, pack_ordinal, fails)}),
         })
         .collect();
-    json!({"cfg": {"builder": "heroku/builder:24", "app_dir": "fixtures/app", "buildpacks": ["heroku/nodejs"], "env": [["A", "1"]], "expect_failure": b.expect_failure, "preprocessor": b.preprocessor}, "steps": steps})
+    json!({"cfg": {"builder": "heroku/builder:24", "app_dir": "fixtures/app", "buildpacks": ["heroku/nodejs"], "env": [["A", "1"]], "expect_failure": b.expect_failure, "preprocessor": b.preprocessor, "crate_buildpack": b.crate_buildpack}, "steps": steps})
 }
 
 /// (scenario json for the worker, pack-fail sequence)
@@ -316,7 +318,29 @@ fn check_one(ctx: &Ctx, scratch: &Path, s: &Scenario, kind: &str) -> (Check, usi
     ctx.class(&format!("fault:{kind}"));
     let (v, seq) = scenario_json(s);
     let root = scratch.join(format!("s-{:016x}", hash_of(&v.to_string())));
-    let o = trrun::run_scenario(&root, &v, s.fail_at, &seq);
+    let needs_toolchain = v.to_string().contains("\"crate_buildpack\":\"");
+    let o = trrun::run_scenario_env(&root, &v, s.fail_at, &seq, needs_toolchain);
+    if needs_toolchain {
+        ctx.class("crate-buildpack-scenario");
+        // the packaged buildpack handed to pack must live below TMPDIR (and be gone afterwards, checked by the oracle)
+        for e in &o.log {
+            let a = argv(e);
+            if e["prog"] == "pack" && a.first().map(String::as_str) == Some("build") {
+                for (i, _) in a.iter().enumerate().filter(|(_, t)| *t == "--buildpack") {
+                    let bp = a.get(i + 1).cloned().unwrap_or_default();
+                    // compiled buildpacks are passed as absolute paths; registry ids (heroku/nodejs) are not paths
+                    if bp.starts_with('/') && !bp.starts_with(&root.join("tmp").to_string_lossy().to_string()) {
+                        let _ = crate::fsutil::force_remove(&root);
+                        return (Err(Fail::new("C16:compiled-buildpack-outside-tmpdir", format!("--buildpack {bp}"))), o.log.len());
+                    }
+                }
+            }
+        }
+        if o.code == Some(101) && o.stderr.contains("Error packaging") {
+            let _ = crate::fsutil::force_remove(&root);
+            return (Err(Fail::new("harness:crate-buildpack-did-not-compile", o.stderr.chars().take(600).collect::<String>())), o.log.len());
+        }
+    }
     ctx.extra_add("external_commands_recorded", o.log.len() as u64);
     match o.code {
         Some(0) => ctx.class("outcome:test-passed"),
@@ -372,8 +396,21 @@ fn check(ctx: &Ctx, scratch: &Path, b: &Build, stash: &std::cell::RefCell<Option
     Ok(())
 }
 
+/// trees whose first build compiles the crate in CARGO_MANIFEST_DIR (no containers: the host triple has no container platform)
+fn crate_scenario_strategy() -> impl Strategy<Value = Build> {
+    (any::<bool>(), any::<bool>(), proptest::collection::vec(any::<bool>(), 0..3), proptest::option::of((any::<bool>(), any::<bool>()))).prop_map(|(ws, preprocessor, sboms, rebuild)| {
+        let kind = if ws { "workspace" } else { "current" };
+        let mut steps: Vec<Step> = sboms.iter().map(|_| Step::DownloadSbom).collect();
+        if let Some((pre2, crate2)) = rebuild {
+            steps.push(Step::Rebuild(Box::new(Build { crate_buildpack: if crate2 { Some(kind) } else { None }, expect_failure: false, pack_fails: false, preprocessor: pre2, steps: vec![Step::DownloadSbom] })));
+        }
+        Build { crate_buildpack: Some(kind), expect_failure: false, pack_fails: false, preprocessor, steps }
+    })
+}
+
 pub fn run(ctx: &Ctx) {
     ctx.set_rule("scenario trees up to depth 3 built from build / rebuild (reusing the image) / start_container (detached; logs_now, logs_wait, address_for_port, shell_exec, panic inside) / run_shell_command / download_sbom_files / panic, both expected pack results x pack succeeding/failing, with/without app preprocessor, interpreted by a worker process through the public TestRunner API against stand-in docker and pack executables that record every argv and keep a state directory pre-seeded with foreign images/volumes/containers; for every generated fault-free tree EVERY single fault is enumerated: no fault; the k-th external command (pack build, docker run, logs, port, exec, sbom download, rm, rmi, volume rm) exiting non-zero for every k; a panic at every step position of every closure; an unexpected pack result at every build node. Oracle: invariant over the recorded command history and the final state after the worker has ended: detached containers force-removed once after their last use; image and both cache volumes force-removed exactly once after their last use (once in total across rebuild chains); removals name only identifiers of this run and all foreign resources still exist; nothing created by the run remains unless the failed command was that very removal; TMPDIR empty. Non-trivial: the scenario starts >= 1 detached container and contains a fault (panic or failing command); distinct = hash of the scenario.");
+    ctx.assume("crate-buildpack scenarios (BuildpackReference::CurrentCrate / WorkspaceBuildpack) compile a dependency-free crate for the host gnu triple and therefore start no containers");
     ctx.assume("docker and pack are modelled by a stand-in (exit codes, --force semantics: forced removal of a missing name succeeds); single faults only");
     let scratch = Scratch::new("c16");
     for (_p, v) in ctx.regress_files() {
@@ -384,11 +421,23 @@ pub fn run(ctx: &Ctx) {
     ctx.run_prop(
         "scenarios",
         scenario_strategy(),
-        ctx.tier.pick(120, 4000),
+        ctx.tier.pick(100, 4000),
         |b| stash.borrow().clone().unwrap_or_else(|| case_json(&Scenario { build: b.clone(), fail_at: None })),
         |b| {
             ctx.class("fault-free-tree");
             check(ctx, &scratch.path, b, &stash)
+        },
+    );
+    // a small class that really compiles and packages a crate (CurrentCrate / WorkspaceBuildpack), with every single fault
+    let stash2: std::cell::RefCell<Option<Value>> = std::cell::RefCell::new(None);
+    ctx.run_prop(
+        "crate-buildpack",
+        crate_scenario_strategy(),
+        ctx.tier.pick(3, 120),
+        |b| stash2.borrow().clone().unwrap_or_else(|| case_json(&Scenario { build: b.clone(), fail_at: None })),
+        |b| {
+            ctx.class("fault-free-tree:crate-buildpack");
+            check(ctx, &scratch.path, b, &stash2)
         },
     );
 }
@@ -398,7 +447,7 @@ pub fn replay(ctx: &Ctx, _sub: &str, case: &Value) {
     let root = scratch.path.join("replay");
     let v = &case["scenario"];
     let fail_at = v["fail_at"].as_u64();
-    let o = trrun::run_scenario(&root, v, fail_at, case["pack_fail_seq"].as_str().unwrap_or(""));
+    let o = trrun::run_scenario_env(&root, v, fail_at, case["pack_fail_seq"].as_str().unwrap_or(""), v.to_string().contains("\"crate_buildpack\":\""));
     ctx.eval();
     ctx.check_case("replay", judge(&o, fail_at), || case.clone());
 }
